@@ -20,7 +20,9 @@
 //! Bounds: the combinations of gap choices are enumerated in named families (see `Family`),
 //! simplest first; the stage list in `run` fixes (number of edits, family, number of texts) per
 //! tier. Quick: 1 edit full product; 2 edits PlainSweep+PlainFirst+LastGap+Uniform over 7 texts;
-//! 3 edits PlainSweep+LastGap over the first 5 texts. Thorough (4 files): the same with 7 texts up
+//! (+FirstGap); 3 edits PlainSweep+PlainFirst+LastGap over the first 5 texts (PlainFirst matters:
+//! the sweep starts with `file_symbols`, which registers a pending file and thereby heals a
+//! database whose project-level queries would have answered from a stale file set). Thorough (4 files): the same with 7 texts up
 //! to 3 edits (+UniformX at 2, +Uniform and PlainFirst at 3) and 4 edits PlainSweep (+LastGapAll
 //! over 5 texts). A wall cap stops the stage list; completed stages are reported.
 //!
@@ -1381,8 +1383,8 @@ pub fn run(ctx: &Ctx) -> EngineResult {
             (2, Family::LastGap, nv),
             (2, Family::Uniform, nv),
             (2, Family::FirstGap, nv),
+            (3, Family::PlainFirst, small),
             (3, Family::LastGap, small),
-            (3, Family::FirstGap, small),
         ],
         Tier::Thorough => vec![
             (1, Family::Full, nv),
